@@ -2,6 +2,7 @@ import os
 import sys
 
 from contextlib import contextmanager
+from functools import wraps
 
 from .compat import range
 from .module import SourceModule, ImportedModule
@@ -20,6 +21,22 @@ SOURCE_SUFFIXES = ('.py',)
 if False:
     import typing as t
     from .name import Object
+    T = t.TypeVar('T')
+
+
+def request(func):
+    # type: (t.Callable[..., T]) -> t.Callable[..., T]
+    # what the API answers is a function of the text, the position and the
+    # files of the project: every call is a request of its own, whatever was
+    # asked before it - also for a caller that never enters check_changes()
+    @wraps(func)
+    def inner(project, *args, **kwargs):
+        # type: (t.Any, t.Any, t.Any) -> T
+        if project is None:
+            return func(project, *args, **kwargs)
+        with project.check_changes():
+            return func(project, *args, **kwargs)
+    return inner
 
 
 class Project(object):
